@@ -2,7 +2,5 @@ package main
 
 import "github.com/cybergarage/go-redis/redis"
 
-// installStore installs a store-backed handler ("example" or "ref"); filled in by store.go.
-var installStore = func(rn *runner, server *redis.Server, kind string) any {
-	panic("store handlers not built in")
-}
+// installStore installs a store-backed handler; set in store.go.
+var installStore func(rn *runner, server *redis.Server, kind string) any
